@@ -5,7 +5,7 @@
 #             with the hash recorded next to the model definition;
 #         (b) correspondence: extracted model vs the implementation compiled from /repo, every call form
 # search: python big-integer specification oracle on the same cases
-import hashlib, json, math, os, re, struct, sys
+import hashlib, json, math, os, re, struct, subprocess, sys
 import vf
 sys.path.insert(0, os.path.join(vf.ROOT, "harness"))
 import c01_table as T
@@ -149,6 +149,47 @@ def census(ann):
     return n, bad
 
 
+# ------------------------------------------------------------------ forwarding census (ZRing<Integer> wrappers of givinteger.h)
+# The `@dom` call forms of a wrapper `Rep& f(..) const { return Integer::f(..); }` share the model definition of the function
+# they forward to.  That assumption is read from the current text of givinteger.h: a wrapper that still is a one-line forward
+# must name the expected callee and pass its parameters in the expected order.
+FORWARD_EXPECT = {   # (wrapper, number of parameters) -> (callee, order of the wrapper's parameters in the call)
+    ("mul", 3): ("mul", (0, 1, 2)), ("mulin", 2): ("mulin", (0, 1)), ("add", 3): ("add", (0, 1, 2)), ("addin", 2): ("addin", (0, 1)),
+    ("sub", 3): ("sub", (0, 1, 2)), ("subin", 2): ("subin", (0, 1)), ("axpy", 4): ("axpy", (0, 1, 2, 3)), ("maxpy", 4): ("maxpy", (0, 1, 2, 3)),
+    ("axmy", 4): ("axmy", (0, 1, 2, 3)), ("axpyin", 3): ("axpyin", (0, 1, 2)), ("maxpyin", 3): ("maxpyin", (0, 1, 2)),
+    ("axmyin", 3): ("axmyin", (0, 1, 2)), ("neg", 2): ("neg", (0, 1)), ("negin", 1): ("negin", (0,)),
+    ("gcd", 5): ("gcd", (0, 1, 2, 3, 4)), ("gcd", 3): ("gcd", (0, 1, 2)), ("lcm", 3): ("lcm", (0, 1, 2)),
+    ("inv", 3): ("inv", (0, 1, 2)), ("invin", 2): ("invin", (0, 1)), ("invmod", 3): ("inv", (0, 1, 2)), ("invmodin", 2): ("invin", (0, 1)),
+    ("sqrt", 2): ("sqrt", (0, 1)), ("sqrt", 3): ("sqrtrem", (0, 2, 1)), ("logp", 2): ("logp", (0, 1)), ("length", 1): ("length", (0,)),
+    ("sign", 1): ("sign", (0,)), ("isZero", 1): ("isZero", (0,)), ("isOne", 1): ("isOne", (0,)), ("isMOne", 1): ("isMOne", (0,)),
+    ("abs", 1): ("abs", (0,)), ("compare", 2): ("compare", (0, 1)),
+}
+
+
+def forwarding_census():
+    p = os.path.join(vf.REPO, "src/kernel/integer/givinteger.h")
+    try:
+        txt = strip_comments(open(p, errors="replace").read())
+    except OSError:
+        return 0, ["givinteger.h not found"], []
+    w = re.sub(r"\s+", " ", txt)
+    seen, bad = set(), []
+    for m in re.finditer(r"(\w+) ?\(([^()]*)\) ?const ?\{ ?return ([\w:]+) ?\(([^()]*)\); ?\}", w):
+        name, params, callee, args = m.group(1), m.group(2), m.group(3), m.group(4)
+        pn = [q.strip().split()[-1].lstrip("&*") for q in params.split(",") if q.strip()]
+        key = (name, len(pn))
+        if key not in FORWARD_EXPECT:
+            continue
+        seen.add(key)
+        ecallee, order = FORWARD_EXPECT[key]
+        got = [a.strip() for a in args.split(",") if a.strip()]
+        want = [pn[i] for i in order]
+        if callee.split("::")[-1] != ecallee or got != want:
+            bad.append("ZRing<Integer>::%s/%d returns %s(%s); the shared model assumes %s(%s)" % (name, len(pn), callee, ",".join(got), ecallee, ",".join(want)))
+    notfwd = sorted("%s/%d" % k for k in FORWARD_EXPECT if k not in seen)
+    return len(seen), bad, notfwd
+
+
 # ------------------------------------------------------------------ known findings (frag until merged)
 def install_known():
     base = vf.load_known()
@@ -245,6 +286,11 @@ def main(tier, replay=None):
     if cbad:
         chk.broke("call-sequence census: %d modelled body/bodies no longer call the GMP primitives / zero dispatches their model follows: " % len(cbad)
                   + "; ".join(cbad[:8]))
+    nfw, fbad, notfwd = forwarding_census()
+    chk.cov["forwarding_wrappers_checked"] = nfw
+    chk.cov["forwarding_wrappers_no_longer_one_line_forwards"] = notfwd      # recorded only: the correspondence run still drives them
+    if fbad:
+        chk.broke("forwarding census: " + "; ".join(fbad[:8]))
     if missing:
         chk.broke("modelled overload bodies no longer found in the source (signature changed or removed): " + ", ".join(missing[:20]))
     live_fixed = {}
@@ -253,8 +299,13 @@ def main(tier, replay=None):
             live_fixed[name] = fixed_model
     chk.cov["repaired_bodies_live"] = sorted(live_fixed)
     # 2b. completeness of the call-form table against the declarations of /repo's current headers (clang AST)
+    decl_timeout = False
     try:
         cv = DECL.coverage(T.VARIANTS)
+    except subprocess.TimeoutExpired as ex:      # our tooling ran out of time (machine load): inconclusive, not a violation
+        decl_timeout = True
+        cv = {"declarations": 0, "covered": 0, "excluded": [], "unmapped": [], "missing_variants": [], "unreferenced_variants": [], "err": repr(ex)}
+        chk.cov["inconclusive"].append("clang AST dump of the headers timed out; the declaration completeness check did not run")
     except Exception as ex:     # clang missing / crashed
         cv = {"declarations": 0, "covered": 0, "excluded": [], "unmapped": [], "missing_variants": [], "unreferenced_variants": [], "err": repr(ex)}
     chk.cov["public_declarations"] = cv["declarations"]
@@ -263,7 +314,7 @@ def main(tier, replay=None):
     for d, r in cv["excluded"]:
         exr[r] = exr.get(r, 0) + 1
     chk.cov["declarations_excluded_by_reason"] = exr
-    if cv["declarations"] == 0:
+    if cv["declarations"] == 0 and not decl_timeout:
         chk.broke("cannot read the declarations of Integer / ZRing<Integer> from /repo's headers (clang AST dump failed)", cv["err"])
     if cv["unmapped"]:
         chk.broke("public overloads declared in the headers that the C01 call-form table does not know (new or changed signature): "
@@ -275,9 +326,14 @@ def main(tier, replay=None):
                   + ", ".join(cv["unreferenced_variants"][:20]))
     # 3. executables
     drv, l1 = vf.ocaml_build(AREA) if os.path.exists(os.path.join(vf.coq_dir(AREA), "ocaml", "model.ml")) else (None, "extraction did not run")
-    if drv is None:
+    if drv is None and "[timeout after" in (l1 or ""):
+        chk.cov["inconclusive"].append("building the extracted model driver timed out; no correspondence in this run")
+    elif drv is None:
         chk.broke("extracted model driver does not build", l1)
     himpl, l2 = vf.build_harness("c01_integer.C", deps=HARNESS_DEPS)
+    if himpl is None and "[timeout after" in (l2 or ""):
+        chk.cov["inconclusive"].append("compiling the implementation harness / library timed out; no comparison in this run")
+        return chk.finish()
     if himpl is None:
         chk.broke("implementation harness does not compile against /repo", l2)
         return chk.finish()
@@ -302,6 +358,11 @@ def main(tier, replay=None):
             n = max(8, int(per * spec.get("weight", 1)))
             for a in T.gen_cases(rng, v, spec, n):
                 cases.append((v, a))
+    if not replay:
+        nz, lost = T.grid_selfcheck()
+        chk.cov["grid_zero_x_word_limit_pairs_verified"] = nz
+        if lost:
+            chk.broke("the deterministic grid no longer contains a special accumulator x word limit pair: " + "; ".join(lost[:6]))
     impl_in, model_in = [], []
     for v, a in cases:
         spec = T.VARIANTS[v]
@@ -309,7 +370,9 @@ def main(tier, replay=None):
         mname = live_fixed.get(mname, mname)
         ks = T.kinds(spec, a)
         impl_in.append(v + " " + " ".join(fmt_impl(k, x) for k, x in zip(ks, a)))
-        if "margs" in spec:      # the model takes the operands the call form duplicates (x op= x) or a destination's old value
+        if spec.get("oracle_only"):     # no model (or operands outside the model's reach): nothing to run
+            model_in.append("skip")
+        elif "margs" in spec:      # the model takes the operands the call form duplicates (x op= x) or a destination's old value
             model_in.append(mname + " " + " ".join(str(x) for x in spec["margs"](*a)))
         else:
             model_in.append(mname + " " + " ".join(fmt_model(k, x) for k, x in zip(ks, a)))
